@@ -169,6 +169,120 @@ theorem never_stalls (n : Nat) (cfg : Cfg) (hn : 0 < n) (ms : List Mv) :
   obtain ⟨more, hi, hqz⟩ := can_quiesce n cfg hn _ _ _ (Nat.le_refl _) h
   exact ⟨more, hi, by rw [run_append]; exact hqz⟩
 
+/-! ### inevitability: not only CAN the consumers reach quiescence — whatever they do, they DO
+
+`never_stalls` is a possibility statement (some continuation reaches quiescence).  The following
+three theorems give the inevitability form.  `measure s = 2·|queue| + |inHand|`; a consumer move is
+*enabled* when it is a real move (`take`: a frame is queued and a consumer is parked; `finish f`:
+`f` is in hand).  (1) every enabled consumer move lowers the measure by exactly one, (2) as long as
+the pipeline is not quiescent some consumer move is enabled (no deadlock), (3) hence EVERY run of
+enabled consumer moves has at most `measure` moves, and every such run of exactly `measure` moves —
+i.e. every maximal one, every fair schedule of the consumers — ends in quiescence: the pool is
+empty after `measure` real moves whichever consumers make them in whichever order. -/
+
+def measure (s : St) : Nat := 2 * s.queue.length + s.inHand.length
+
+/-- the move is a real move of a consumer in state `s` -/
+def enabled (s : St) : Mv → Bool
+  | .arrive _ => false
+  | .take => !s.queue.isEmpty && decide (s.inHand.length < s.alive)
+  | .finish f => decide (f ∈ s.inHand)
+
+/-- every move of the list is enabled at its moment -/
+def enabledAll (cfg : Cfg) : St → List Mv → Bool
+  | _, [] => true
+  | s, m :: ms => enabled s m && enabledAll cfg (step true cfg s m) ms
+
+/-- **(1) every enabled consumer move lowers the measure by exactly one** (whether or not the
+handling raises) -/
+theorem enabled_step_measure (cfg : Cfg) (s : St) (m : Mv) (h : enabled s m = true) :
+    measure (step true cfg s m) + 1 = measure s := by
+  cases m with
+  | arrive f => simp [enabled] at h
+  | take =>
+    simp only [enabled, Bool.and_eq_true, Bool.not_eq_true', decide_eq_true_eq] at h
+    cases hq : s.queue with
+    | nil => simp [hq] at h
+    | cons f q =>
+      simp only [step, hq, h.2, ↓reduceIte, measure, List.length_cons]
+      omega
+  | finish f =>
+    simp only [enabled, decide_eq_true_eq] at h
+    have hl := List.length_erase_of_mem h
+    have hpos : 0 < s.inHand.length := List.length_pos_of_mem h
+    have hq : (step true cfg s (.finish f)).queue = s.queue := by
+      simp only [step, h, if_true]; cases handle cfg f <;> rfl
+    have hi : (step true cfg s (.finish f)).inHand.length = s.inHand.length - 1 := by
+      simp only [step, h, if_true]; cases handle cfg f <;> simpa using hl
+    simp only [measure, hq, hi]
+    omega
+
+/-- the contained machine never loses a consumer, from any state -/
+theorem step_alive (cfg : Cfg) (s : St) (m : Mv) : (step true cfg s m).alive = s.alive := by
+  cases m with
+  | arrive f => rfl
+  | take =>
+    simp only [step]
+    split
+    · rfl
+    · split <;> rfl
+  | finish f =>
+    simp only [step]
+    split
+    · cases handle cfg f <;> rfl
+    · rfl
+
+/-- **(2) no deadlock**: with a live consumer, a pipeline that is not quiescent always has an
+enabled consumer move -/
+theorem not_quiescent_enabled (s : St) (ha : 0 < s.alive) (hq : quiescent s = false) :
+    ∃ m, enabled s m = true := by
+  cases hh : s.inHand with
+  | cons f hand => exact ⟨.finish f, by simp [enabled, hh]⟩
+  | nil =>
+    cases hqq : s.queue with
+    | nil => simp [quiescent, hh, hqq] at hq
+    | cons f q => exact ⟨.take, by simp [enabled, hqq, hh, ha]⟩
+
+/-- a run of enabled consumer moves lowers the measure by its length -/
+theorem enabled_run_measure (cfg : Cfg) (s : St) (ms : List Mv) (h : enabledAll cfg s ms = true) :
+    measure (run true cfg s ms) + ms.length = measure s := by
+  induction ms generalizing s with
+  | nil => simp [run]
+  | cons m ms ih =>
+    simp only [enabledAll, Bool.and_eq_true] at h
+    have h1 := enabled_step_measure cfg s m h.1
+    have h2 := ih _ h.2
+    simp only [run, List.length_cons]
+    omega
+
+/-- **(3a) bounded**: no run of enabled consumer moves is longer than the measure — the consumers
+cannot go on for ever without new frames -/
+theorem enabled_run_bounded (cfg : Cfg) (s : St) (ms : List Mv) (h : enabledAll cfg s ms = true) :
+    ms.length ≤ measure s := by
+  have := enabled_run_measure cfg s ms h; omega
+
+/-- **(3b) inevitably quiescent**: after ANY schedule `ms` from the start, EVERY run `more` of
+`measure` enabled consumer moves — whichever consumers move, in whichever order — ends in
+quiescence; by (2) a shorter run can always be continued, by (3a) none is longer: every maximal
+run of the consumers empties the pool. -/
+theorem inevitably_quiescent (n : Nat) (cfg : Cfg) (ms more : List Mv)
+    (hen : enabledAll cfg (run true cfg (init n) ms) more = true)
+    (hlen : more.length = measure (run true cfg (init n) ms)) :
+    quiescent (run true cfg (init n) (ms ++ more)) = true := by
+  have h := enabled_run_measure cfg _ more hen
+  rw [run_append]
+  have h0 : measure (run true cfg (run true cfg (init n) ms) more) = 0 := by omega
+  simp only [measure] at h0
+  have h1 : (run true cfg (run true cfg (init n) ms) more).queue.length = 0 := by omega
+  have h2 : (run true cfg (run true cfg (init n) ms) more).inHand.length = 0 := by omega
+  simp [quiescent, List.length_eq_zero_iff.mp h1, List.length_eq_zero_iff.mp h2]
+
+/-- … and a run that is not yet quiescent can be continued (so "maximal" is reached): after any
+schedule and any run of enabled consumer moves, if the pool is not empty another move is enabled -/
+theorem can_always_continue (n : Nat) (cfg : Cfg) (hn : 0 < n) (ms : List Mv)
+    (hq : quiescent (run true cfg (init n) ms) = false) : ∃ m, enabled (run true cfg (init n) ms) m = true :=
+  not_quiescent_enabled _ (by rw [no_consumer_dies]; exact hn) hq
+
 /-- what the statement's `describe` sees in the machine's replies is what the statement
 `demanded` — for a buildable configuration whose encryption kind is in the table.  The
 device-available clause goes through `C03.net_roundtrip`: the DECODED payload is the configured
@@ -428,5 +542,14 @@ example :
 example :
     let fs : List Frame := [⟨0, .data, 69, true, 0, true⟩, ⟨1, .data, 69, true, 0, true⟩, ⟨2, .data, 69, true, 2, false⟩]
     ((replay false exampleCfg 2 [fs]).getLast?.map fun o => spec 2 exampleCfg.net fs (Obs.ofSnap o)) = some false := by decide
+
+/-- non-vacuity: two frames queued, one in hand (measure 5): five real moves, then quiescent -/
+example : let cfg := exampleCfg
+    let f := fun i => (⟨i, .data, 69, true, 1, false⟩ : Frame)
+    let ms := [Mv.arrive (f 0), .arrive (f 1), .arrive (f 2), .take]
+    measure (run true cfg (init 2) ms) = 5 ∧
+    enabledAll cfg (run true cfg (init 2) ms) [.take, .finish (f 1), .finish (f 0), .take, .finish (f 2)] = true ∧
+    quiescent (run true cfg (init 2) (ms ++ [.take, .finish (f 1), .finish (f 0), .take, .finish (f 2)])) = true := by
+  decide
 
 end PlumVerif.C09
